@@ -32,7 +32,7 @@ ASSUMPTIONS = [
 @st.composite
 def strat_load(draw, tier):
     big = tier == "thorough"
-    buf = draw(st.sampled_from([64, 128, 256, 256]))
+    buf = draw(st.sampled_from([64, 128, 256, 256, 512, 104, 264]))
     w = h = draw(st.sampled_from([2, 4, 8]))
     chips = [(x, y) for x in range(w) for y in range(h)]
     nbin = draw(st.integers(1, 3))
